@@ -113,6 +113,13 @@ func c05IsNonexpiringRoot(le *leaseEntry, n *c05NS) bool {
 	return le != nil && le.Auth != nil && le.Auth.TTL == 0 && len(le.Auth.Policies) == 1 && le.Auth.Policies[0] == "root" && n.Path == ""
 }
 
+// c05IsRevocationLease recognises the record CreateOrFetchRevocationLeaseByToken writes for a token that
+// has no lease (1ns lifetime, nothing but the client token): it is written to storage and then revoked
+// synchronously by the same call, without ever being handed to the manager's timers.
+func c05IsRevocationLease(le *leaseEntry) bool {
+	return le != nil && le.Auth != nil && le.Secret == nil && len(le.Auth.Policies) == 0 && le.Auth.TTL == time.Nanosecond && le.Auth.Accessor == ""
+}
+
 // c05LeaseKind classifies a stored lease record (evidence only).
 func c05LeaseKind(le *leaseEntry, n *c05NS) string {
 	k := "?"
@@ -280,9 +287,17 @@ func (e *c05Env) probeLease(v *vCore, r *kit.Result, caseID, stage string, n *c0
 	if le.ExpireTime.IsZero() || !le.ExpireTime.Before(now) || le.isIrrevocable() {
 		return true
 	}
+	x := mem[id]
+	if c05IsRevocationLease(le) && !x.armed() {
+		// not the record the accepted revocation was about: the token's lease was deleted meanwhile and a
+		// concurrent token lookup wrote a revocation lease under the same id, which its creator revokes
+		// synchronously (it is never handed to the timers). Whether it stays is decided by the comparisons
+		// that follow (a finding there must persist), not at this instant.
+		r.Count("probe_revocation_lease_being_revoked_by_its_creator(not judged here)", 1)
+		return true
+	}
 	r.Count("past_expiry_tracking_checks", 1)
 	r.Count("probe_past_expiry_lease_still_stored", 1)
-	x := mem[id]
 	if x.armed() {
 		return true
 	}
@@ -340,7 +355,7 @@ func (e *c05Env) awaitDue(v *vCore, r *kit.Result, caseID, stage string, horizon
 				r.Count("past_expiry_tracking_checks", 1)
 			}
 			x := mem[id]
-			if !x.armed() {
+			if !x.armed() && !c05IsRevocationLease(le) { // (a revocation lease is revoked synchronously by its creator: judged at the deadline)
 				for _, f := range c05JudgeLease(id, &c05Stored{ID: id, NS: s.NS, Entry: le}, x, now) {
 					r.Violate(f.class, caseID, fmt.Sprintf("%s [%s]: %s", stage, caseID, f.what), map[string]any{"stage": stage, "held_as": x.String(), "extra": extra})
 					return false
@@ -356,6 +371,19 @@ func (e *c05Env) awaitDue(v *vCore, r *kit.Result, caseID, stage string, horizon
 			return true
 		}
 		if time.Now().After(deadline) {
+			// still stored 12s after its expiry: if the manager's timer is armed for another time than the
+			// stored expiry the lease is not tracked for ITS expiry - decidable, not a matter of waiting longer
+			mem := c05Members(v.Core)
+			for id, s := range due {
+				le := c05ReadLease(v, s.NS, id)
+				if le == nil || le.isIrrevocable() || le.ExpireTime.IsZero() || !le.ExpireTime.Before(time.Now()) {
+					continue
+				}
+				for _, f := range c05JudgeLease(id, &c05Stored{ID: id, NS: s.NS, Entry: le}, mem[id], time.Now()) {
+					r.Violate(f.class, caseID, fmt.Sprintf("%s [%s]: 12s after the clock passed its stored expiry: %s", stage, caseID, f.what), map[string]any{"stage": stage, "held_as": mem[id].String(), "extra": extra})
+					return false
+				}
+			}
 			r.Inconc("%s: %s: %d of %d tracked leases still stored 12s after the clock passed their expiry (bounded progress not reached)", caseID, stage, remaining, len(due))
 			return false
 		}
@@ -370,6 +398,7 @@ type c05KObj struct {
 	NS        *c05NS
 	By        *c05KObj // token that created / leased it (nil: the core's root token)
 	TokenID   string
+	Accessor  string
 	LeaseID   string
 	LeasePath string
 	SecretID  string
@@ -475,7 +504,7 @@ func (h *c05KHist) create(kind string, n *c05NS, by *c05KObj, ttl time.Duration)
 			h.r.Count("create_refused:"+kind, 1)
 			return nil
 		}
-		o.TokenID = resp.Auth.ClientToken
+		o.TokenID, o.Accessor = resp.Auth.ClientToken, resp.Auth.Accessor
 		if (kind == "root-nonexp" || kind == "root-nonexp-uses") && resp.Auth.TTL != 0 {
 			h.r.Count("root_token_without_ttl_got_a_ttl(not judged)", 1)
 		}
